@@ -1,4 +1,5 @@
-(* The README semilattice theory by hand, and a few histories, as executable tests. *)
+(* The README semilattice theory encoded by hand, a few histories and structures, as executable
+   tests (all proved by vm_compute). Also used as non-vacuity witnesses in Props_Sem.v. *)
 From Coq Require Import List NArith Bool.
 From Sem Require Import Syntax Model Chase Iso Run.
 Import ListNotations.
@@ -16,20 +17,117 @@ Definition vx := Var 0. Definition vy := Var 1. Definition vz := Var 2. Definiti
 Definition semilattice : program :=
   {| pg_sig := sl_sig;
      pg_rules :=
-       [ [If (ATy 0 0); Then (le vx vx)];
-         [If (le vx vy); If (le vy vz); Then (le vx vz)];
-         [If (le vx vy); If (le vy vx); Then (AEq vx vy)];
-         [If (ATy 0 0); If (ATy 1 0); Then (ADef (meet vx vy))];
-         [If (AEq vm (meet vx vy)); Then (le vm vx); Then (le vm vy)];
-         [If (le vz vx); If (le vz vy); If (AEq vm (meet vx vy)); Then (le vz vm)] ] |}.
+       [ [If (ATy 0 0); Then (le vx vx)];                                           (* reflexivity *)
+         [If (le vx vy); If (le vy vz); Then (le vx vz)];                           (* transitivity *)
+         [If (le vx vy); If (le vy vx); Then (AEq vx vy)];                          (* antisymmetry *)
+         [If (ATy 0 0); If (ATy 1 0); Then (ADef (meet vx vy))];                    (* totality *)
+         [If (AEq vm (meet vx vy)); Then (le vm vx); Then (le vm vy)];              (* lower bound *)
+         [If (le vz vx); If (le vz vy); If (AEq vm (meet vx vy)); Then (le vz vm)]  (* greatest *)
+       ] |}.
 
+Definition run1 (h : list call) : structure :=
+  match nth 0 (free_model 100 semilattice h) None with
+  | Some M => M
+  | None => init_structure semilattice
+  end.
+
+(* README main.rs: three elements, close, the two associations of the meet *)
 Definition assoc_history : list call :=
   [New 0; New 0; New 0; Close;
    Define 1 [0; 1]; Define 1 [3; 2]; Define 1 [1; 2]; Define 1 [0; 5]; Dump].
+Definition assoc_model : structure := Eval vm_compute in run1 assoc_history.
 
-Definition assoc_model : option structure :=
-  nth 0 (free_model 100 semilattice assoc_history) None.
+Example sl_wf : wf_prog_b semilattice = true.
+Proof. vm_compute. reflexivity. Qed.
 
-Time Eval vm_compute in assoc_model.
-Time Eval vm_compute in
-  match assoc_model with Some M => Some (check_closed semilattice M, count_roots M) | None => None end.
+Example assoc_terminates : nth 0 (free_model 100 semilattice assoc_history) None = Some assoc_model.
+Proof. vm_compute. reflexivity. Qed.
+
+Example meet_is_associative : eval_cond semilattice assoc_model (CEqual 0 4 6) = true.
+Proof. vm_compute. reflexivity. Qed.
+
+Example assoc_model_closed : check_closed semilattice assoc_model = None.
+Proof. vm_compute. reflexivity. Qed.
+
+(* the free semilattice on three generators has 7 elements *)
+Example assoc_model_size : count_roots assoc_model = [(0, 7)].
+Proof. vm_compute. reflexivity. Qed.
+
+(* a non-closed structure: le(0,1), le(1,2) but not le(0,2); witness = rule 1 (transitivity),
+   statement 2, x=0 y=1 z=2 *)
+Definition bad_trans : structure :=
+  {| st_elems := [(0, [(0,0);(1,1);(2,2)])];
+     st_rows := [(0, [[0;0];[1;1];[2;2];[0;1];[1;2]]); (1, [])];
+     st_handles := [0;1;2] |}.
+Example bad_trans_violation :
+  check_closed semilattice bad_trans = Some (1, 2, [(4, 2); (2, 1); (0, 0)]).
+Proof. vm_compute. reflexivity. Qed.
+Example bad_trans_find : find_violation semilattice bad_trans = Some (1, 2, [(4, 2); (2, 1); (0, 0)]).
+Proof. vm_compute. reflexivity. Qed.
+
+(* a non-functional meet table *)
+Definition bad_func : structure :=
+  {| st_elems := [(0, [(0,0);(1,1);(2,2)])];
+     st_rows := [(0, [[0;0];[1;1];[2;2]]); (1, [[0;1;2];[0;1;1]])];
+     st_handles := [0;1;2] |}.
+Example bad_func_detected : functional_b semilattice bad_func = false.
+Proof. vm_compute. reflexivity. Qed.
+
+(* per-type id spaces are rejected: reason code 3 *)
+Definition bad_ids : structure :=
+  {| st_elems := [(0, [(0,0)]); (1, [(0,0)])]; st_rows := []; st_handles := [] |}.
+Example bad_ids_detected :
+  check_closed {| pg_sig := {| sg_ntypes := 2; sg_rels := [] |}; pg_rules := [] |} bad_ids =
+  Some (code_canonical, 3, []).
+Proof. vm_compute. reflexivity. Qed.
+
+(* history independence (C03): same facts, different order and extra closes *)
+Definition h_once : list call := [New 0; New 0; New 0; Insert 0 [0;1]; Close; Dump].
+Definition h_incr : list call :=
+  [New 0; New 0; Insert 0 [0;1]; Close; New 0; Insert 0 [0;1]; Close; Close; Dump].
+Definition h_other : list call := [New 0; New 0; New 0; Insert 0 [1;0]; Close; Dump].
+Definition m_once : structure := Eval vm_compute in run1 h_once.
+Definition m_incr : structure := Eval vm_compute in run1 h_incr.
+Definition m_other : structure := Eval vm_compute in run1 h_other.
+
+Example once_in_history : In (Some m_once) (run_history 100 semilattice h_once).
+Proof. vm_compute. left. reflexivity. Qed.
+Example history_independent : check_iso semilattice m_once m_incr = true.
+Proof. vm_compute. reflexivity. Qed.
+Example different_facts_differ : check_iso semilattice m_once m_other = false.
+Proof. vm_compute. reflexivity. Qed.
+Example once_size : count_roots m_once = [(0, 5)].
+Proof. vm_compute. reflexivity. Qed.
+
+(* close_until (C07): the stopping state satisfies the condition, is not closed, maps into the
+   free model, and a further close reaches the free model *)
+Definition h_until : list call :=
+  [New 0; New 0; New 0; Insert 0 [0;1]; CloseUntil (CDefined 1 [0;2]); Dump; Close; Dump].
+Definition m_until : structure := Eval vm_compute in run1 h_until.
+Definition m_resumed : structure := Eval vm_compute in
+  match nth 1 (free_model 100 semilattice h_until) None with
+  | Some M => M | None => init_structure semilattice end.
+Example until_cond : eval_cond semilattice m_until (CDefined 1 [0;2]) = true.
+Proof. vm_compute. reflexivity. Qed.
+Example until_not_closed : check_closed semilattice m_until = Some (0, 1, [(0, 3)]).
+Proof. vm_compute. reflexivity. Qed.
+Example until_sound : check_hom semilattice m_until m_once = true.
+Proof. vm_compute. reflexivity. Qed.
+Example until_resumed : check_iso semilattice m_resumed m_once = true.
+Proof. vm_compute. reflexivity. Qed.
+
+(* the universal property: the one-element semilattice receives the free model *)
+Definition sl_start : structure := Eval vm_compute in run1 [New 0; New 0; New 0; Dump].
+Definition sl_free : structure := Eval vm_compute in run1 [New 0; New 0; New 0; Close; Dump].
+Definition sl_one : structure :=
+  {| st_elems := [(0, [(7,7)])]; st_rows := [(0, [[7;7]]); (1, [[7;7;7]])]; st_handles := [7;7;7] |}.
+Example start_in_history : In (Some sl_start) (run_history 100 semilattice [New 0; New 0; New 0; Dump]).
+Proof. vm_compute. left. reflexivity. Qed.
+Example free_is_chase : chase 100 semilattice sl_start = Some sl_free.
+Proof. vm_compute. reflexivity. Qed.
+Example one_closed : check_closed semilattice sl_one = None.
+Proof. vm_compute. reflexivity. Qed.
+Example start_to_one : check_hom semilattice sl_start sl_one = true.
+Proof. vm_compute. reflexivity. Qed.
+Example free_to_one : check_hom semilattice sl_free sl_one = true.
+Proof. vm_compute. reflexivity. Qed.
